@@ -486,9 +486,49 @@ def gen_scene(rng, quick):
         conv = f32 if gstyle == "random32" else float
         grid = [[conv((rng.uniform() * 2 - 1) * (extent + 1.5)) for _ in range(3)] for _ in range(npts)]
         gspec = None
-    return {"section": "scene", "elements": elements, "coords": coords, "charges": charges, "weights": weights,
-            "grid_style": gstyle, "grid": grid, "grid_spec": gspec, "style": style,
-            "max_dist": rng.choice([0.5, 1.0, 1.7, 2.0, 2.5, 3.3]), "eps": rng.choice([0.0, 0.25, 0.5, 1.0])}
+    scene = {"section": "scene", "elements": elements, "coords": coords, "charges": charges, "weights": weights,
+             "grid_style": gstyle, "grid": grid, "grid_spec": gspec, "style": style,
+             "max_dist": rng.choice([0.5, 1.0, 1.7, 2.0, 2.5, 3.3]), "eps": rng.choice([0.0, 0.25, 0.5, 1.0])}
+    if rng.chance(1, 2):
+        # the same objects are queried, edited in place and queried again
+        edit = rng.choice(["assign", "translate", "translate", "scale"])
+        if edit == "assign":
+            scene["then"] = {"edit": "assign", "coords": [[[coord() for _ in range(3)] for _ in range(n_atoms)] for _ in range(n_conf)]}
+        elif edit == "translate":
+            scene["then"] = {"edit": "translate", "vector": [rng.range(-8, 8) / 4.0, rng.range(-8, 8) / 4.0, f32(rng.uniform() * 3 - 1.5)]}
+        else:
+            scene["then"] = {"edit": "scale", "factor": rng.choice([0.5, 1.5, 2.0])}
+    return scene
+
+
+def gen_big_scene(rng, quick, i):
+    """sizes above any plausible internal batch / block size: many grid points, many atoms, many conformers"""
+    kind = ["grid", "grid", "atoms", "conformers"][i % 4]
+    s = gen_scene(rng, quick)
+    n_atoms = rng.range(2, 6) if kind != "atoms" else rng.range(100, 260)
+    n_conf = rng.range(1, 3) if kind != "conformers" else rng.range(17, 70)
+    extent = 3.0 if kind != "atoms" else 6.0
+    s["elements"] = [rng.choice(ELEMENTS) for _ in range(n_atoms)]
+    s["coords"] = [[[f32((rng.uniform() * 2 - 1) * extent) for _ in range(3)] for _ in range(n_atoms)] for _ in range(n_conf)]
+    s["charges"] = [[f32(rng.uniform() * 2 - 1) for _ in range(n_atoms)] for _ in range(n_conf)]
+    s["weights"] = [rng.choice([1.0, 0.5, 2.0, 0.25 + rng.uniform()]) for _ in range(n_conf)]
+    npts = rng.choice([4097, 5000, 8193, 9001] if quick else [4097, 5000, 8192, 8193, 9001, 13000, 16385, 20001]) if kind == "grid" else rng.range(300, 700)
+    pts = np.array([rng.next() for _ in range(npts * 3)], dtype=np.uint64)
+    g = ((pts >> np.uint64(11)).astype(np.float64) / float(1 << 53) * 2 - 1) * (extent + 1.5)
+    g = g.reshape(npts, 3)
+    # points that are certainly inside a sphere: the first, the last and ~3 % of the others sit 0.3 Å off an atom
+    flat = np.array(s["coords"], dtype=np.float64).reshape(-1, 3)
+    idxs = [0, npts - 1, npts - 2] + [rng.below(npts) for _ in range(npts // 32)]
+    for j in idxs:
+        g[j] = flat[rng.below(len(flat))] + np.array([0.3, 0.0, 0.0])
+    s["grid_style"], s["grid_spec"] = "random32", None
+    s["grid"] = g.astype(np.float32).astype(np.float64).tolist()
+    s["big"] = kind
+    s["style"] = "random"
+    s.pop("then", None)
+    if rng.chance(1, 2):
+        s["then"] = {"edit": "translate", "vector": [f32(rng.uniform() * 2 - 1), f32(rng.uniform() * 2 - 1), f32(rng.uniform())]}
+    return s
 
 
 def build_scene(s):
@@ -541,27 +581,56 @@ def oracle_nearest(ctx, idx, atoms, grid, maxd, tag, single):
             return
 
 
-def check_scenes(ctx, n_cases, corpus):
+class _OnlyBinary32:
+    """request sink for scenes too large for the exact ℚ driver: keeps the binary32 occupancy request only"""
+    def __init__(self, reqs):
+        self.reqs = reqs
+
+    def append(self, t):
+        if t[1] == "field32":
+            self.reqs.append(t)
+
+
+def apply_edit(s, m, ens):
+    """edit the SAME long-lived objects in place; returns the coordinates they hold afterwards"""
+    t = s["then"]
+    if t["edit"] == "assign":
+        ens.coords = np.array(t["coords"], dtype=np.float64)
+        m.coords = np.array(t["coords"][0], dtype=np.float64)
+    elif t["edit"] == "translate":
+        ens.translate(np.array(t["vector"]))
+        m.translate(np.array(t["vector"]))
+    elif t["edit"] == "scale":
+        ens.scale(t["factor"])
+        m.scale(t["factor"])
+    new = np.array(ens.coords, dtype=np.float64)
+    if not np.array_equal(np.array(m.coords, dtype=np.float64), new[0]):
+        raise RuntimeError("geometry and first conformer disagree after the same edit")
+    return new
+
+
+def check_scenes(ctx, n_cases, corpus, big=0):
     from molli.descriptor import gridbased as gb
 
-    scenes = [c for c in corpus if c.get("section") == "scene"] + [gen_scene(ctx.rng, ctx.quick()) for _ in range(n_cases)]
+    scenes = [c for c in corpus if c.get("section") == "scene"] + [gen_scene(ctx.rng, ctx.quick()) for _ in range(n_cases)] + \
+        [gen_big_scene(ctx.rng, ctx.quick(), i) for i in range(big)]
     reqs = []   # (line, kind, impl, tag)
-    for si, s in enumerate(scenes):
-        ctx.check_deadline()
-        try:
-            m, ens, grid, radii = build_scene(s)
-        except Exception as e:
-            ctx.disagree("could not build the ensemble", s, f"{type(e).__name__}: {e}", "ensemble")
-            continue
+
+    def exercise(s, m, ens, grid, radii, si, exact):
         coords = np.array(s["coords"], dtype=np.float64)
         n_conf, n_atoms = coords.shape[0], coords.shape[1]
         maxd, eps = s["max_dist"], s["eps"]
         tag = {k: v for k, v in s.items()}
-        ctx.case(json.dumps(s, sort_keys=True), nontrivial=grid.shape[0] > 0 and n_atoms > 1)
-        ctx.count(f"scene-atoms={n_atoms}" if n_atoms <= 5 else "scene-atoms=11..30" if n_atoms <= 30 else "scene-atoms=31..60")
+        ctx.case(json.dumps(s if exact else {k: v for k, v in s.items() if k != "grid"}, sort_keys=True) + f":{grid.shape[0]}",
+                 nontrivial=grid.shape[0] > 0 and n_atoms > 1)
+        ctx.count(f"scene-atoms={n_atoms}" if n_atoms <= 5 else "scene-atoms=11..30" if n_atoms <= 30 else "scene-atoms=31..60" if n_atoms <= 60 else "scene-atoms>60")
+        ctx.count("scene-grid-points" + ("<=400" if grid.shape[0] <= 400 else "<=4096" if grid.shape[0] <= 4096 else ">4096"))
+        if s.get("phase"):
+            ctx.count(f"scene-second-query-after-edit:{s['then']['edit']}")
         ctx.count(f"scene-conformers={n_conf}")
         ctx.count(f"scene-grid:{s['grid_style']}")
-        gtok = pts_tok(grid, rat)
+        gtok = pts_tok(grid, rat) if exact else None
+        sink = reqs if exact else _OnlyBinary32(reqs)
         # ---------- (D) nearest_atom_index: ensemble and single geometry ----------
         try:
             ne = gb.nearest_atom_index(grid, ens, max_dist=maxd)
@@ -569,16 +638,16 @@ def check_scenes(ctx, n_cases, corpus):
         except Exception as e:
             ctx.disagree("nearest_atom_index raised", tag, f"{type(e).__name__}: {e}", "indices")
             ctx.violation("C19:descriptor-raised", f"nearest_atom_index raised {type(e).__name__}", tag)
-            continue
+            return False
         if ne.shape != (n_conf, grid.shape[0]) or np.asarray(ns).shape != (grid.shape[0],):
             ctx.violation("C19:nearest-shape", f"shapes {ne.shape} / {np.asarray(ns).shape}", tag)
-            continue
+            return False
         for ci in range(n_conf):
             oracle_nearest(ctx, ne[ci], coords[ci], grid, maxd, {**tag, "what": "nearest-ensemble", "conformer": ci}, False)
-            reqs.append((f"nearest 1/1000000000 {rat(maxd)} {pts_tok(coords[ci], rat)} {gtok}", "nearest", ne[ci].tolist(),
+            sink.append((f"nearest 1/1000000000 {rat(maxd)} {pts_tok(coords[ci], rat)} {gtok}", "nearest", ne[ci].tolist(),
                          {**tag, "what": "nearest-ensemble", "conformer": ci}))
         oracle_nearest(ctx, ns, coords[0], grid, maxd, {**tag, "what": "nearest-single"}, True)
-        reqs.append((f"nearest 1/1000000000 {rat(maxd)} {pts_tok(coords[0], rat)} {gtok}", "nearest", np.asarray(ns).tolist(),
+        sink.append((f"nearest 1/1000000000 {rat(maxd)} {pts_tok(coords[0], rat)} {gtok}", "nearest", np.asarray(ns).tolist(),
                      {**tag, "what": "nearest-single"}))
         ctx.count(f"nearest-max_dist={maxd}")
         # ---------- (E) prune ----------
@@ -602,7 +671,7 @@ def check_scenes(ctx, n_cases, corpus):
                 if j not in ks and d2min[j] * (1 + eps) ** 2 < maxd * maxd * (1 - 1e-9):
                     ctx.violation("C19:prune-dropped-point-within-inner-radius", f"grid point {j} dropped, nearest atom at {math.sqrt(d2min[j]):.6g} <= {maxd}/(1+{eps})", {**ptag, "point": j})
                     break
-            reqs.append((f"prune 1/1000000000 {rat(maxd)} {rat(eps)} {pts_tok(atoms, rat)} {gtok}", "prune", kept, ptag))
+            sink.append((f"prune 1/1000000000 {rat(maxd)} {rat(eps)} {pts_tok(atoms, rat)} {gtok}", "prune", kept, ptag))
             ctx.count(f"prune-eps={eps}")
         # ---------- (F) aso / aeif ----------
         band = "1/50000"
@@ -648,19 +717,38 @@ def check_scenes(ctx, n_cases, corpus):
                 j = int(bad[0][0])
                 ctx.violation("C19:aeif-not-average-of-nearest-charge", f"grid point {j}: aeif={ve[j]!r}, definition gives {ref_aeif[j]!r}", {**ftag, "point": j})
             etok = ens_tok(coords, rat)
-            reqs.append((f"aso {band} {wt} {nums_tok(radii, rat)} {etok} {gtok}", "field", va.tolist(), {**ftag, "what": "aso"}))
-            reqs.append((f"aeif {band} {wt} {nums_tok(radii, rat)} {'|'.join(nums_tok(c, rat) for c in s['charges'])} {etok} {gtok}",
+            sink.append((f"aso {band} {wt} {nums_tok(radii, rat)} {etok} {gtok}", "field", va.tolist(), {**ftag, "what": "aso"}))
+            sink.append((f"aeif {band} {wt} {nums_tok(radii, rat)} {'|'.join(nums_tok(c, rat) for c in s['charges'])} {etok} {gtok}",
                          "field", ve.tolist(), {**ftag, "what": "aeif"}))
             # the binary32 evaluation of the occupancy test, no exclusion band
             wt64 = nums_tok(s["weights"], bits64) if weighted else "-"
             c32 = coords.astype(np.float32)
             g32 = grid.astype(np.float32)
-            reqs.append((f"asof32 {wt64} {nums_tok(radii, bits64)} {ens_tok(c32, lambda v: bits32(v))} {pts_tok(g32, lambda v: bits32(v))}",
+            sink.append((f"asof32 {wt64} {nums_tok(radii, bits64)} {ens_tok(c32, lambda v: bits32(v))} {pts_tok(g32, lambda v: bits32(v))}",
                          "field32", va.tolist(), {**ftag, "what": "aso-binary32"}))
             ctx.count("field-weighted" if weighted else "field-unweighted")
-        if si < 2:
+        if si < 2 and not s.get("phase"):
             ctx.sample({"scene": {k: s[k] for k in ("elements", "style", "grid_style", "max_dist", "eps")}, "grid_points": int(grid.shape[0]),
                         "aso_head": [float(x) for x in va[:4]]})
+        return True
+
+    for si, s in enumerate(scenes):
+        ctx.check_deadline()
+        try:
+            m, ens, grid, radii = build_scene(s)
+        except Exception as e:
+            ctx.disagree("could not build the ensemble", s, f"{type(e).__name__}: {e}", "ensemble")
+            continue
+        exact = not s.get("big")
+        if exercise(s, m, ens, grid, radii, si, exact) is False or not s.get("then"):
+            continue
+        # query – edit – query on the same objects: nothing may be remembered from the first round
+        try:
+            new = apply_edit(s, m, ens)
+        except Exception as e:
+            ctx.disagree("editing the geometry failed", s, f"{type(e).__name__}: {e}", "edited")
+            continue
+        exercise({**s, "coords": new.tolist(), "phase": 1}, m, ens, grid, radii, si, exact)
     outs = ctx.driver([r[0] for r in reqs], timeout=1200)
     for (line, kind, impl, tag), mo in zip(reqs, outs):
         if mo.startswith("err"):
@@ -736,7 +824,9 @@ def run(ctx):
                 "strided/transposed/reversed/column-strided/mixed-dtype arguments; non-trivial = a non-contiguous argument. "
                 "Grids: dyadic boxes (exact comparison) and general float boxes (tolerance; width/spacing within 1e-4 of an "
                 "integer skipped); non-trivial = more than one point. Scenes: 1..5, 11..30 or 31..60 atoms (beyond one KD-tree leaf of 10 points) x 1..4 conformers, rectangular or "
-                "random float32/float64 grids, max_dist in {0.5..3.3}, eps in {0..1}; each scene exercises nearest (ensemble and "
+                "random float32/float64 grids; half of the scenes query, edit the SAME objects in place (coords assignment / translate / scale) and "
+                "query again; additional large scenes: grids of 4097..20001 points, 100..260 atoms, 17..70 conformers (compared with the brute-force "
+                "definition and the binary32 driver); max_dist in {0.5..3.3}, eps in {0..1}; each scene exercises nearest (ensemble and "
                 "single geometry), prune (both), aso and aeif (weighted and not); non-trivial = >1 atom and a non-empty grid. "
                 "Distinct by full canonical input.")
     ctx.assumptions += [
@@ -752,7 +842,7 @@ def run(ctx):
     check_kernels(ctx, 250 if q else 8000, corpus)
     check_prebuilt(ctx, 80 if q else 2500)
     check_grids(ctx, 60 if q else 1500, corpus)
-    check_scenes(ctx, 30 if q else 1000, corpus)
+    check_scenes(ctx, 24 if q else 800, corpus, big=4 if q else 40)
 
 
 def replay(ctx, path):
@@ -768,6 +858,13 @@ def replay(ctx, path):
         print("prune:", np.asarray(gb.prune(grid, ens, max_dist=r["max_dist"], eps=r["eps"])).tolist())
         print("aso:", gb.aso(ens, grid).tolist())
         print("aeif:", gb.aeif(ens, grid).tolist())
+        if r.get("then") :
+            apply_edit(r, m, ens)
+            print("after the edit", r["then"]["edit"], "on the same objects:")
+            print("nearest_atom_index(grid, ensemble):", gb.nearest_atom_index(grid, ens, max_dist=r["max_dist"]).tolist())
+            print("prune:", np.asarray(gb.prune(grid, ens, max_dist=r["max_dist"], eps=r["eps"])).tolist())
+            print("aso:", gb.aso(ens, grid).tolist())
+            print("aeif:", gb.aeif(ens, grid).tolist())
     elif sec == "grid":
         print(gb.rectangular_grid(r["l"], r["r"], padding=r["pad"], spacing=r["s"], dtype=r["dtype"]).tolist())
     elif sec == "kernel":
